@@ -49,6 +49,9 @@ def attribute(t, evn, idx, inv):
         p = "C06+C08"      # retry policy: re-delivery of the remainder / per-batch budget
     if evn.get("ev") in ("Take", "TakeEmpty") and idx > 0 and t["trace"][idx - 1].get("ev") == "Ret":
         p = "C06+C08"      # the receiver moved on although the remainder had to be retried
+    if evn.get("ev") == "Call" and idx > 1 and t["trace"][idx - 1].get("ev") == "Wait" \
+            and t["trace"][idx - 2].get("ev") == "Ret":
+        p = "C06+C08"      # a retry after a back-off that is not explainable (decreasing delay)
     if evn.get("ev") == "Fired" and sum(1 for e in t["trace"][:idx] if e.get("ev") == "Fired" and e.get("w") == evn.get("w")):
         p = "C08"          # fired twice
     return p
